@@ -90,3 +90,11 @@ pub fn d_units(amp: u64, decimals: &[u8], reserves: &[u128]) -> BigInt {
 pub fn low_amp_or_skewed(amp: u64, n: usize, reserves: &[u128], decimals: &[u8]) -> bool {
     (amp as u128) * (n as u128) < 100 || skew(reserves, decimals) >= 100.0
 }
+
+/// how many accuracy bands an over-quote may reach in the low-amplification / high-skew regime
+/// before it stops being attributed to the recorded solver-truncation finding (KF-C19-b / KF-C03-b).
+/// Calibrated on 8.07e7 quotes: worst seen 9.3 bands (amp 1, 4 assets, skew 977); this allows
+/// 8 + n*skew/100 bands, i.e. ~47 there and ~11 at skew 100.
+pub fn kf_b_cap(n: usize, skew: f64) -> f64 {
+    8.0 + (n as f64) * skew.min(2000.0) / 100.0
+}
